@@ -790,3 +790,111 @@ example : l1d_linspace (0 : ℚ) 1 4 = [1 / 4, 1 / 2, 3 / 4] := by
   rw [l1d_linspace_eq]; norm_num [List.range, List.range.loop]
 
 end C20
+
+/-! ## appended: where the circumcentre lies (used for `choose_point_in_simplex`, `Lemmas/Choose.lean`)
+
+`choose_point_in_simplex` takes the centroid exactly when `point_in_simplex(circumcentre, simplex)` holds.  The
+barycentric coordinates of the circumcentre are `a²(b² + c² − a²) / (16 area²)` (`a` the edge opposite the vertex), so
+for tolerance `0` the test says: no angle of the triangle is obtuse. -/
+namespace C20
+open Gen.Prims Prims
+variable {α : Type} [Field α] [LinearOrder α] [IsStrictOrderedRing α]
+
+/-- C20.circ2.h  barycentric coordinates of the returned circumcentre (non-degenerate triangle): with
+`A = |p1 p2|²`, `B = |p0 p2|²`, `C = |p0 p1|²` (squared edge lengths, each opposite the vertex of the same index) they
+are `A (B + C − A)`, `B (A + C − B)`, `C (A + B − C)` over `4 cross2² = 16 area²` -/
+theorem circ2_bary (sqrt : α → α) (x0 y0 x1 y1 x2 y2 : α) (h : cross2 x0 y0 x1 y1 x2 y2 ≠ 0) :
+    bary0 (fast_2d_circumcircle sqrt x0 y0 x1 y1 x2 y2).1.1 (fast_2d_circumcircle sqrt x0 y0 x1 y1 x2 y2).1.2 x0 y0 x1 y1 x2 y2
+      = dsq2 x1 y1 x2 y2 * (dsq2 x0 y0 x2 y2 + dsq2 x0 y0 x1 y1 - dsq2 x1 y1 x2 y2)
+          / (4 * (cross2 x0 y0 x1 y1 x2 y2 * cross2 x0 y0 x1 y1 x2 y2)) ∧
+    bary1 (fast_2d_circumcircle sqrt x0 y0 x1 y1 x2 y2).1.1 (fast_2d_circumcircle sqrt x0 y0 x1 y1 x2 y2).1.2 x0 y0 x1 y1 x2 y2
+      = dsq2 x0 y0 x2 y2 * (dsq2 x1 y1 x2 y2 + dsq2 x0 y0 x1 y1 - dsq2 x0 y0 x2 y2)
+          / (4 * (cross2 x0 y0 x1 y1 x2 y2 * cross2 x0 y0 x1 y1 x2 y2)) ∧
+    bary2 (fast_2d_circumcircle sqrt x0 y0 x1 y1 x2 y2).1.1 (fast_2d_circumcircle sqrt x0 y0 x1 y1 x2 y2).1.2 x0 y0 x1 y1 x2 y2
+      = dsq2 x0 y0 x1 y1 * (dsq2 x1 y1 x2 y2 + dsq2 x0 y0 x2 y2 - dsq2 x0 y0 x1 y1)
+          / (4 * (cross2 x0 y0 x1 y1 x2 y2 * cross2 x0 y0 x1 y1 x2 y2)) := by
+  have h2 : (2 : α) * cross2 x0 y0 x1 y1 x2 y2 ≠ 0 := mul_ne_zero two_ne_zero h
+  obtain ⟨u, v, e, hu, hv⟩ := circ2_rel sqrt x0 y0 x1 y1 x2 y2 h2
+  rw [e]
+  simp only [bary0, bary1, bary2]
+  have h4 : (4 : α) * (cross2 x0 y0 x1 y1 x2 y2 * cross2 x0 y0 x1 y1 x2 y2) ≠ 0 :=
+    mul_ne_zero (by norm_num) (mul_ne_zero h h)
+  refine ⟨?_, ?_, ?_⟩ <;> rw [div_eq_div_iff h h4]
+  · simp only [dsq2, cross2, c2dx, c2dy] at hu hv ⊢
+    linear_combination (2 * (y1 - y2) * ((x1 - x0) * (y2 - y0) - (x2 - x0) * (y1 - y0))) * hu
+      + (2 * (x2 - x1) * ((x1 - x0) * (y2 - y0) - (x2 - x0) * (y1 - y0))) * hv
+  · simp only [dsq2, cross2, c2dx, c2dy] at hu hv ⊢
+    linear_combination (2 * (y2 - y0) * ((x1 - x0) * (y2 - y0) - (x2 - x0) * (y1 - y0))) * hu
+      - (2 * (x2 - x0) * ((x1 - x0) * (y2 - y0) - (x2 - x0) * (y1 - y0))) * hv
+  · simp only [dsq2, cross2, c2dx, c2dy] at hu hv ⊢
+    linear_combination (-2 * (y1 - y0) * ((x1 - x0) * (y2 - y0) - (x2 - x0) * (y1 - y0))) * hu
+      + (2 * (x1 - x0) * ((x1 - x0) * (y2 - y0) - (x2 - x0) * (y1 - y0))) * hv
+
+/-- a non-degenerate triangle has no two coinciding vertices -/
+theorem dsq2_pos_of_cross2 (x0 y0 x1 y1 x2 y2 : α) (h : cross2 x0 y0 x1 y1 x2 y2 ≠ 0) :
+    0 < dsq2 x1 y1 x2 y2 ∧ 0 < dsq2 x0 y0 x2 y2 ∧ 0 < dsq2 x0 y0 x1 y1 := by
+  have key : ∀ a b c d : α, dsq2 a b c d = 0 → a = c ∧ b = d := by
+    intro a b c d e
+    simp only [dsq2] at e
+    have h1 : (a - c) * (a - c) = 0 := by nlinarith [mul_self_nonneg (a - c), mul_self_nonneg (b - d)]
+    have h2 : (b - d) * (b - d) = 0 := by nlinarith [mul_self_nonneg (a - c), mul_self_nonneg (b - d)]
+    exact ⟨sub_eq_zero.1 (mul_self_eq_zero.1 h1), sub_eq_zero.1 (mul_self_eq_zero.1 h2)⟩
+  refine ⟨?_, ?_, ?_⟩ <;> refine lt_of_le_of_ne (dsq2_nonneg _ _ _ _) (fun e => h ?_)
+  · obtain ⟨rfl, rfl⟩ := key _ _ _ _ e.symm; simp only [cross2]; ring
+  · obtain ⟨rfl, rfl⟩ := key _ _ _ _ e.symm; simp only [cross2]; ring
+  · obtain ⟨rfl, rfl⟩ := key _ _ _ _ e.symm; simp only [cross2]; ring
+
+/-- C20.circ2.i  `point_in_simplex(circumcentre, triangle)` with tolerance `0`, non-degenerate triangle: true exactly
+when NO ANGLE IS OBTUSE — each squared edge length is at most the sum of the other two (right angles included: the
+circumcentre of a right triangle is the midpoint of the hypotenuse, on the boundary) -/
+theorem circ2_inside_iff_not_obtuse (sqrt : α → α) (x0 y0 x1 y1 x2 y2 : α) (h : cross2 x0 y0 x1 y1 x2 y2 ≠ 0) :
+    fast_2d_point_in_simplex (fast_2d_circumcircle sqrt x0 y0 x1 y1 x2 y2).1.1 (fast_2d_circumcircle sqrt x0 y0 x1 y1 x2 y2).1.2
+        x0 y0 x1 y1 x2 y2 0 = true ↔
+      dsq2 x1 y1 x2 y2 ≤ dsq2 x0 y0 x2 y2 + dsq2 x0 y0 x1 y1 ∧
+      dsq2 x0 y0 x2 y2 ≤ dsq2 x1 y1 x2 y2 + dsq2 x0 y0 x1 y1 ∧
+      dsq2 x0 y0 x1 y1 ≤ dsq2 x1 y1 x2 y2 + dsq2 x0 y0 x2 y2 := by
+  obtain ⟨pA, pB, pC⟩ := dsq2_pos_of_cross2 x0 y0 x1 y1 x2 y2 h
+  obtain ⟨b0, b1, b2⟩ := circ2_bary sqrt x0 y0 x1 y1 x2 y2 h
+  have hs := bary_sum (fast_2d_circumcircle sqrt x0 y0 x1 y1 x2 y2).1.1 (fast_2d_circumcircle sqrt x0 y0 x1 y1 x2 y2).1.2
+    x0 y0 x1 y1 x2 y2 h
+  have h4 : (0 : α) < 4 * (cross2 x0 y0 x1 y1 x2 y2 * cross2 x0 y0 x1 y1 x2 y2) :=
+    mul_pos (by norm_num) (mul_self_pos.2 h)
+  have dn : ∀ a : α, 0 ≤ a / (4 * (cross2 x0 y0 x1 y1 x2 y2 * cross2 x0 y0 x1 y1 x2 y2)) ↔ 0 ≤ a :=
+    fun a => by rw [le_div_iff₀ h4, zero_mul]
+  have k0 := dn (dsq2 x1 y1 x2 y2 * (dsq2 x0 y0 x2 y2 + dsq2 x0 y0 x1 y1 - dsq2 x1 y1 x2 y2))
+  have k1 := dn (dsq2 x0 y0 x2 y2 * (dsq2 x1 y1 x2 y2 + dsq2 x0 y0 x1 y1 - dsq2 x0 y0 x2 y2))
+  have k2 := dn (dsq2 x0 y0 x1 y1 * (dsq2 x1 y1 x2 y2 + dsq2 x0 y0 x2 y2 - dsq2 x0 y0 x1 y1))
+  rw [← b0, mul_nonneg_iff_of_pos_left pA, sub_nonneg] at k0
+  rw [← b1, mul_nonneg_iff_of_pos_left pB, sub_nonneg] at k1
+  rw [← b2, mul_nonneg_iff_of_pos_left pC, sub_nonneg] at k2
+  rw [point_in_simplex2_iff_bary _ _ _ _ _ _ _ _ h, ← k0, ← k1, ← k2]
+  constructor
+  · rintro ⟨⟨a, _⟩, ⟨b, _⟩, c, _⟩; exact ⟨a, b, c⟩
+  · rintro ⟨a, b, c⟩; exact ⟨⟨a, by linarith⟩, ⟨b, by linarith⟩, c, by linarith⟩
+
+/-- C20.circ2.j  … and with a tolerance `eps`: each barycentric coordinate of the circumcentre (`circ2_bary`) may be
+as small as `-eps`, i.e. `A (B + C − A) ≥ −eps · 16 area²` for each vertex (a SLIGHTLY obtuse triangle still passes),
+and the coordinate of `p1` must not exceed `1 + eps` -/
+theorem circ2_inside_iff_eps (sqrt : α → α) (x0 y0 x1 y1 x2 y2 eps : α) (h : cross2 x0 y0 x1 y1 x2 y2 ≠ 0) :
+    fast_2d_point_in_simplex (fast_2d_circumcircle sqrt x0 y0 x1 y1 x2 y2).1.1 (fast_2d_circumcircle sqrt x0 y0 x1 y1 x2 y2).1.2
+        x0 y0 x1 y1 x2 y2 eps = true ↔
+      -eps * (4 * (cross2 x0 y0 x1 y1 x2 y2 * cross2 x0 y0 x1 y1 x2 y2))
+        ≤ dsq2 x1 y1 x2 y2 * (dsq2 x0 y0 x2 y2 + dsq2 x0 y0 x1 y1 - dsq2 x1 y1 x2 y2) ∧
+      -eps * (4 * (cross2 x0 y0 x1 y1 x2 y2 * cross2 x0 y0 x1 y1 x2 y2))
+        ≤ dsq2 x0 y0 x2 y2 * (dsq2 x1 y1 x2 y2 + dsq2 x0 y0 x1 y1 - dsq2 x0 y0 x2 y2) ∧
+      -eps * (4 * (cross2 x0 y0 x1 y1 x2 y2 * cross2 x0 y0 x1 y1 x2 y2))
+        ≤ dsq2 x0 y0 x1 y1 * (dsq2 x1 y1 x2 y2 + dsq2 x0 y0 x2 y2 - dsq2 x0 y0 x1 y1) ∧
+      dsq2 x0 y0 x2 y2 * (dsq2 x1 y1 x2 y2 + dsq2 x0 y0 x1 y1 - dsq2 x0 y0 x2 y2)
+        ≤ (1 + eps) * (4 * (cross2 x0 y0 x1 y1 x2 y2 * cross2 x0 y0 x1 y1 x2 y2)) := by
+  obtain ⟨b0, b1, b2⟩ := circ2_bary sqrt x0 y0 x1 y1 x2 y2 h
+  have hs := bary_sum (fast_2d_circumcircle sqrt x0 y0 x1 y1 x2 y2).1.1 (fast_2d_circumcircle sqrt x0 y0 x1 y1 x2 y2).1.2
+    x0 y0 x1 y1 x2 y2 h
+  have h4 : (0 : α) < 4 * (cross2 x0 y0 x1 y1 x2 y2 * cross2 x0 y0 x1 y1 x2 y2) :=
+    mul_pos (by norm_num) (mul_self_pos.2 h)
+  rw [point_in_simplex2_iff_eps, ← le_div_iff₀ h4, ← le_div_iff₀ h4, ← le_div_iff₀ h4, ← div_le_iff₀ h4,
+    ← b0, ← b1, ← b2]
+  constructor
+  · rintro ⟨⟨a, b⟩, c, d⟩; exact ⟨by linarith, a, c, b⟩
+  · rintro ⟨a, b, c, d⟩; exact ⟨⟨b, d⟩, c, by linarith⟩
+
+end C20
